@@ -60,3 +60,26 @@ def toGM (horizontal : χ → Bool) : TreeProg χ α β → GridModel.GM α β
 end TreeProg
 
 end Slice
+
+/-! ### indexing, `(a..b).any(p)` -/
+
+namespace Slice
+
+/-- `l[i]` as a value (panics out of range: `GErr.overflow` stands for the index panic, as for `indexRange`) -/
+def index {β : Type} (l : List β) (i : Nat) : Except GridTracks.GErr β :=
+  match l[i]? with
+  | some x => .ok x
+  | none => .error .overflow
+
+/-- `(a..b).any(|i| p(i))` for a `Range<usize>` held as the pair of its bounds: `p` is applied to `a, a+1, …` and the iteration stops at the
+first `true` (a panic of `p` at a later index does not happen); an empty or reversed range answers `false` -/
+def rangeAnyM (r : Nat × Nat) (p : Nat → Except GridTracks.GErr Bool) : Except GridTracks.GErr Bool :=
+  go (r.2 - r.1) r.1
+where
+  go : Nat → Nat → Except GridTracks.GErr Bool
+    | 0, _ => pure false
+    | n + 1, i => do
+      let b ← p i
+      if b then pure true else go n (i + 1)
+
+end Slice
